@@ -3,6 +3,8 @@
 // of C01_rank (static: compiled node order / edges) and C01_eval (dynamic: evaluation order per cycle).
 #pragma once
 #include <hgraph/lib/std/operators/control.h>
+#include <hgraph/lib/std/operators/impl/higher_order_impl.h>
+#include <hgraph/runtime/node_error.h>
 #include <hgraph/runtime/push_source_node.h>
 
 #include "hk.h"
@@ -38,6 +40,8 @@ enum Extra : int {
     X_RANKDEP,    // add_rank_dependency(node rd_node, depends_on rd_on), acyclic
     X_NESTED,     // child graph {A = add1(p); B = add2(A, q)} behind single_nested_graph_node, C = add1(nested out)
     X_REF,        // R = ref_copy(p) (REF in, REF out), C = add1(R)                 (C reads p through the reference)
+    X_TRYEXC,     // child graph {A = add1(x); B = throwing_add2(x, A)} wrapped by the real wire_try_except; C reads its "out" field;
+                  // B throws in one enumerated evaluation, the error is captured and the run continues   [C01_eval only]
     X_COUNT_EVAL,  // extras used when the graph is run (C01_eval); the ones below are static only (C01_rank)
     X_RANKDEP2 = X_COUNT_EVAL,  // two rank dependencies (any direction, possibly cyclic)
     X_PUSH,       // a push source declared last (must be ranked into the prefix)
@@ -211,6 +215,60 @@ struct CRef {
         on_eval(id.value(), 0);
     }
 };
+inline int g_try_base = 0;       // id of A in the try_except child (B = +1, outer consumer C = +2)
+inline bool g_thrown = false;    // B has thrown (it throws at most once per run)
+inline int g_throw_cycle = -1;   // root cycle in which B threw
+struct CThrow2 {
+    static constexpr auto name = "c01_throw2";
+    static void eval(In<"a", TS<Int>, InputValidity::Unchecked> a, In<"b", TS<Int>, InputValidity::Unchecked> b, Scalar<"id", Int> id,
+                     Out<TS<Int>> out) {
+        Int v = (a.valid() ? a.value() : Int{0}) + 3 * (b.valid() ? b.value() : Int{0}) + node_const(id.value());
+        on_eval(id.value(), v);
+        if (!g_thrown && verif_bool("throw")) {
+            g_thrown = true;
+            g_throw_cycle = g_cycle;
+            throw std::runtime_error("c01 scripted failure");
+        }
+        out.set(v);
+    }
+};
+using TryIntResult = UnNamedTSB<Field<"exception", TS<NodeError>>, Field<"out", TS<Int>>>;
+struct CTryOut {
+    static constexpr auto name = "c01_tryout";
+    static void eval(In<"r", TryIntResult, InputValidity::Unchecked> r, Scalar<"id", Int> id, Out<TS<Int>> out) {
+        auto field = r.template field<"out">();
+        Int v = (field.valid() ? field.value() : Int{0}) + node_const(id.value());
+        out.set(v);
+        on_eval(id.value(), v);
+    }
+};
+struct TryFn {  // WiredFn for  x -> A = add1(x) -> B = throwing_add2(x, A)
+    static WiringPortRef body(Wiring &w, const WiringPortRef &x) {
+        WiringPortRef A = wire<CAdd1>(w, Port<void>{w, x}, Int{g_try_base}).erased();
+        return wire<CThrow2>(w, Port<void>{w, x}, Port<void>{w, A}, Int{g_try_base + 1}).erased();
+    }
+    static CompiledSubGraph compile(const void *, Wiring *parent, std::span<const TSValueTypeMetaData *const> s) {
+        Wiring cw = parent ? parent->child_wiring() : Wiring{WiringKind::SubGraph};
+        WiringPortRef out = body(cw, WiringPortRef::boundary_source(0, {}, s[0]));
+        return std::move(cw).finish_subgraph(out, {s[0]});
+    }
+    static WiringPortRef wire_(const void *, Wiring &w, std::span<const WiringPortRef> a) { return body(w, a[0]); }
+    static const TSValueTypeMetaData *out(const void *) { return schema_descriptor<TS<Int>>::ts_meta(); }
+    static WiredFn make() {
+        static WiredFnOps ops{.wire = &wire_, .compile = &compile, .output_schema = &out};
+        WiredFn f;
+        f.ops = &ops;
+        f.arity = 1;
+        f.has_output = true;
+        f.identity = &typeid(TryFn);
+        return f;
+    }
+};
+inline void register_c01_scalars() {
+    auto &reg = TypeRegistry::instance();
+    reg.register_scalar<WiredFn>("fn");
+    reg.register_scalar<stdlib::SwitchCases>("switch_cases");
+}
 struct push_tag {};
 struct rankfree_tag {};
 
@@ -319,6 +377,16 @@ inline void choose_extra(Prog &p, int nextras, bool reorder_only) {
             p.depth_of[A] = p.depth_of[B] = 1;
             break;
         }
+        case X_TRYEXC: {
+            p.xp = verif_choice("xp", n);
+            int A = p.nuser++, B = p.nuser++, C = p.nuser++;
+            p.reads[A][p.xp] = true;
+            p.reads[B][p.xp] = true;
+            p.reads[B][A] = true;
+            p.reads[C][B] = true;
+            p.depth_of[A] = p.depth_of[B] = 1;
+            break;
+        }
         case X_REF: {
             p.xp = verif_choice("xp", n);
             int R = p.nuser++, C = p.nuser++;
@@ -367,6 +435,16 @@ inline void wire_extra(Wiring &w, const Prog &p, Built &b) {
                                    });
             b.nested_inst = out->peered_node();
             b.port[n + 2] = wire<CAdd1>(w, Port<void>{w, *out}, Int{n + 2}).erased();
+            b.inst[n + 2] = b.port[n + 2].peered_node();
+            b.n_runtime_extra = 1;
+            break;
+        }
+        case X_TRYEXC: {
+            namespace ho = hgraph::stdlib::higher_order_impl_detail;
+            g_try_base = n;
+            WiringPortRef r = ho::wire_try_except(w, TryFn::make(), {b.port[p.xp]}, {}, ErrorCaptureOptions{});
+            b.nested_inst = r.peered_node();
+            b.port[n + 2] = wire<CTryOut>(w, Port<TryIntResult>{w, r}, Int{n + 2}).erased();
             b.inst[n + 2] = b.port[n + 2].peered_node();
             b.n_runtime_extra = 1;
             break;
